@@ -1,6 +1,7 @@
 package an
 
 import (
+	"runtime/debug"
 	"os"
 	"fmt"
 	"go/token"
@@ -325,6 +326,9 @@ func (s *PathState) clobber(t *Term) {
 		return
 	}
 	s.memver[r.K]++
+	if os.Getenv("VERIF_DEBUG_CLOBBER") != "" {
+		fmt.Fprintf(os.Stderr, "CLOBBER %s via %s\n%s\n", r.K, t.K, debug.Stack())
+	}
 	for k := range s.mem {
 		if k == r.K || strings.HasPrefix(k, "&"+r.K+".") || strings.HasPrefix(k, "&"+r.K+"[") || strings.Contains(k, r.K) {
 			delete(s.mem, k)
@@ -555,6 +559,9 @@ func (s *PathState) step(in ssa.Instruction) {
 		t := s.T(x)
 		if closureOnlyInvoked(x) {
 			break // captured variables are written only when the closure runs (handled at call/go/RunDefers)
+		}
+		if cf, _ := x.Fn.(*ssa.Function); cf != nil && callbackSet[cf] == x {
+			break // a callback of a helper interpreted inline: its stores appear where the helper calls it
 		}
 		for _, a := range t.Args {
 			if a != nil && isPointerLike(a) {
@@ -1128,12 +1135,24 @@ func EnumPathsTo(fn *ssa.Function, from *ssa.BasicBlock, target ssa.Instruction,
 					continue
 				}
 				g := c.Common().StaticCallee()
-				if g == nil || !Inlinable(g) || inlineStack[g] || !deepContains(g, target) {
+				if g == nil {
+					g = paramCallee(c)
+				}
+				if g == nil || !Inlinable(g) || inlineStack[g] {
+					continue
+				}
+				inCB := false
+				for _, cbf := range cbOf(c) {
+					if deepContains(cbf, target) {
+						inCB = true
+					}
+				}
+				if !deepContains(g, target) && !inCB {
 					continue
 				}
 				found = true
 				r := EnumPathsTo(fn, from, c, nil, func(s *PathState) {
-					ts, complete := templates(g, target)
+					ts, complete := templatesCB(g, target, cbOf(c))
 					if !complete {
 						res.Complete = false
 					}
@@ -1338,9 +1357,12 @@ func (s *PathState) exec(bi, ii int, target ssa.Instruction, emit func(*PathStat
 			if g == nil {
 				g = s.tableCallee(in)
 			}
+			if g == nil {
+				g = paramCallee(in)
+			}
 			if g != nil {
 				call := in.(*ssa.Call)
-				ts, complete := templates(g, nil)
+				ts, complete := templatesCB(g, nil, cbOf(call))
 				if !complete {
 					drop(true)
 					return
